@@ -38,7 +38,7 @@ func c14Doc(r *fw.Rand) map[string]interface{} {
 		}
 		if r.Chance(1, 2) {
 			var l []interface{}
-			for _, u := range genPick(r, gen.URIPool, r.Range(1, 4)) {
+			for _, u := range gen.PickURIs(r, r.Range(1, 4)) {
 				l = append(l, u)
 			}
 			doc["alsoKnownAs"] = l
@@ -133,7 +133,7 @@ func c14Constructors(c *fw.Case) {
 	keys := gen.RandKeys(r, r.Range(1, 3))
 	svcs := gen.RandServices(r, r.Range(1, 2))
 	var uris []interface{}
-	for _, u := range genPick(r, gen.URIPool, r.Range(1, 3)) {
+	for _, u := range gen.PickURIs(r, r.Range(1, 3)) {
 		uris = append(uris, u)
 	}
 	ids := []interface{}{}
